@@ -948,12 +948,12 @@ impl Pager {
             forall|o: u64| #[trigger] live(final(self), o) == live(old(self), o),
             r is Ok ==> pg(final(self), page_id.0) == page@,
     { unimplemented!() }
-    //@trusted Pager::allocate_page: contract proved from the real body in unit c18_pager (the page handed out was free and is allocated afterwards; no other page's allocation state and no allocated page's content changes)
+    //@trusted Pager::allocate_page: contract proved from the real body in unit c18_pager (the page handed out is a data page, 2 <= id < 65536, was free and is allocated afterwards; no other page's allocation state and no allocated page's content changes)
     #[verifier::external_body]
     pub fn allocate_page(&mut self) -> (r: Result<PageId>)
         ensures forall|o: u64| live(old(self), o) ==> #[trigger] pg(final(self), o) == pg(old(self), o),
             forall|o: u64| live(old(self), o) ==> #[trigger] live(final(self), o),
-            r is Ok ==> !live(old(self), r->Ok_0.0) && live(final(self), r->Ok_0.0) && forall|o: u64| o != r->Ok_0.0 ==> #[trigger] live(final(self), o) == live(old(self), o),
+            r is Ok ==> 2 <= r->Ok_0.0 < 65536 && !live(old(self), r->Ok_0.0) && live(final(self), r->Ok_0.0) && forall|o: u64| o != r->Ok_0.0 ==> #[trigger] live(final(self), o) == live(old(self), o),
     { unimplemented!() }
 }
 //@item nervusdb-storage/src/index/btree.rs struct BTree
